@@ -11,6 +11,7 @@ E.register_unit_execute(R, "C11")
 E.register_plan(R, "C11")
 E.register_run_test(R, "C11")
 E.register_worker_task(R, "C11")
+E.register_stateful_loop(R, "C11")
 
 TRUSTED_BASE = ["E5 queue.Queue FIFO per producer, threading.Event, Thread.is_alive"]
 ASSUMPTIONS = ["sequential consumer; worker interleavings only through the queue contract (any event, Empty, KeyboardInterrupt at the blocking get)"]
